@@ -7,6 +7,9 @@ ids = [p["id"] for p in props]
 
 # id -> (category, technique, text, note, design_ref)
 claimed = {
+ "C06": ("model_checking", "exhaustive interleaving exploration of the real session and handlers on a controlled scheduler (vs, iterative preemption bounding, select ties enumerated)",
+         "Real Session on an in-memory net.Conn: serve loop + 1-2 concurrent requesters (SendIQ / SendMessage / SendPresence / receipts.SendMessageElement, each consuming none/one/all of its response) + canceller thread + the library's per-send deadline goroutines, against a reactive peer whose per-request plan is one of 8 (reply now / late / duplicate / wrong kind first / unknown id first / never / error / incoming request re-using the id), then a sentinel and the closing tag. All interleavings with <=2 preemptions (single requester; two requesters: 0 quick, 1 thorough). Oracle: own reply xor context error; a reply instance reaches at most one consumer; nothing the peer sent is lost except replies of cancelled requests; sentinel handled, Serve returns; no panic/deadlock.",
+         "Trusted: the scheduler explores sequentially consistent interleavings at synchronisation operations and connection I/O of the rewritten source (go build -overlay at check time). MUC join/leave and IBB open/close/read waits are explored by the C18 and C15 scenarios on the same engine.", "6/C06"),
  "C04": ("fault_enumeration", "exhaustive fault-point enumeration over recorded handshakes (nd explorer) + exhaustive interleaving exploration of cancellation on a controlled scheduler (vs, preemption-bounded)",
          "10 handshakes (plain, SASL+bind, WebSocket, component, failing voluntary features, both roles, STARTTLS+SASL+bind over a real TLS peer): peer stream cut after every byte N (inside TLS records too), every read index failing, every write index failing or short; constructor must return a printable non-nil error, not ready, no panic; step errors never swallowed. Cancellation: 3 plaintext handshakes on an in-memory net.Conn with deadlines (unbounded and 48-byte pipes, so writes can block), canceller thread placed at every instant, library's deadline goroutine managed, all interleavings with <=2 (quick) / <=3 (thorough) preemptions; deadlock of the establishing call after cancellation = violation.",
          "Trusted: scripted peers send exactly the needed bytes; TLS byte layout reproducible (asserted); the controlled scheduler explores sequentially consistent interleavings at synchronisation operations and connection I/O (source rewritten at check time, nothing committed to /repo); crypto/tls is not instrumented, so cancellation is explored on the plaintext handshakes.", "6/C04"),
